@@ -390,8 +390,9 @@ def gen(snapshot=None):
         clc = strip_comments(cl)
         m = re.search(r"remove_file|remove_dir|rename\(|hard_link|symlink|fs::copy|File::create|create_dir|set_permissions", clc)
         w(f"Definition clone_source_touches_no_other_file : bool := {'false' if m else 'true'}.")
-        nopen = len(re.findall(r"OpenOptions::new\(\)", clc))
-        w(f"Definition clone_open_options_count : N := {nopen}.")
+        chains = re.findall(r"OpenOptions::new\(\)(.*?)\.open\(", clc, re.S)
+        nopen = len([c for c in chains if re.search(r"\.(write|create|create_new|append|truncate)\(", c)])
+        w(f"Definition clone_open_options_count : N := {nopen}.   (* OpenOptions that can write or create *)")
 
 
     _run_section('clonesteps', _sec_clonesteps, sections, broken, facts, ctx, snapshot)
